@@ -671,14 +671,22 @@ pub fn install(case: &DirCase, built: Built, creator: &mut jbk::creator::Directo
         ids.push(creator.add_entry_store(es));
     }
     for ix in &case.indexes {
-        creator.create_index(
-            &ix.name,
-            index_free(case, &ix.name).into(),
-            jbk::PropertyIdx::from(index_key(case, ix)),
-            ids[ix.store],
-            jbk::EntryCount::from(ix.count),
-            jbk::EntryIdx::from(ix.offset).into(),
-        );
+        // The window's first entry is given either as a constant position or (half of the windows of a case with a
+        // free-data seed, when the model can predict the final order) as the handle of the entry that ends up there:
+        // a deferred position, resolved when the pack is written.
+        let st = &case.stores[ix.store];
+        let predictable = match &st.sort {
+            None => true,
+            Some(keys) => st.unique_keys && keys.iter().all(|k| st.common.iter().any(|p| &p.name == k && !matches!(p.kind, PKind::RefTo))),
+        };
+        let by_handle = case.free != 0 && predictable && (ix.offset as usize) < st.n && free_bytes(case.free, &format!("offset:{}", ix.name), 1)[0] & 1 == 1;
+        let (free, key, count) = (index_free(case, &ix.name), jbk::PropertyIdx::from(index_key(case, ix)), jbk::EntryCount::from(ix.count));
+        if by_handle {
+            let e = final_order(st, &built.models[ix.store])[ix.offset as usize];
+            creator.create_index(&ix.name, free.into(), key, ids[ix.store], count, built.handles[ix.store][e].clone().into());
+        } else {
+            creator.create_index(&ix.name, free.into(), key, ids[ix.store], count, jbk::EntryIdx::from(ix.offset).into());
+        }
     }
     Installed { handles: built.handles, models: built.models }
 }
